@@ -59,6 +59,8 @@ def check(run):
     _r5(run, prog, eff)
     _r6(run, prog)
     _r7(run, prog)
+    from ..cachekey import check_caches
+    check_caches(run, [m_ for m_ in prog.modules.values() if not m_.name.endswith('#pxd')], 'C01-K', prog=prog)
 
 
 def _field_type(prog, ci, chain):
